@@ -25,7 +25,8 @@ Fixpoint assigned (vals comms poss : list N) (v c : N) (ok : N -> bool) : bool :
      the duty's slot and the root/source/target of the data the beacon node returned;
    - the submitter is called at most once, and only after the signer;
    - the submitted attestations are exactly one per validator of the signing request that was not
-     left unsigned (zero signature => no attestation), each with: the committee index, the
+     left unsigned (zero signature => no attestation) and whose committee, by the duty, is not larger
+     than MAX_VALIDATORS_PER_COMMITTEE (no aggregation bits are allocated for such a duty), each with: the committee index, the
      committee size and the single position bit the duty assigns to that validator (same array
      position j for all three), the duty's slot, the data's root/source/target, and the signature
      that validator's account gave over exactly these values. *)
@@ -61,7 +62,8 @@ Definition run_ok (tr : list event) (i : nat) (r : run) : bool :=
               | Some unsigned =>
                   forallb (att_ok d a) atts &&
                   list_eqb N.eqb (map (fun x => fst (at_sig x)) atts)
-                           (filter (fun v => negb (memb N.eqb v unsigned)) (map fst (sr_pairs q)))
+                           (map fst (filter (fun p => negb (memb N.eqb (fst p) unsigned) &&
+                                                      (size_of d (snd p) <=? max_committee)) (sr_pairs q)))
               | None => false
               end
           | _ => false
